@@ -27,7 +27,15 @@ func parseExprText(src string) string {
 	if !ok {
 		return "reject:" + astx.Kind(prog.Body[0])
 	}
-	return fromAST(es.Expression).String()
+	d := fromAST(es.Expression).String()
+	if strings.Contains(d, "other:") {
+		// The real parse left the modelled expression fragment (array/object/function/regexp literal).  This only happens
+		// when the scanner's token stream differs from the rendered tokens (region cr_peek swallows a character); the Lean
+		// model has no such nodes and answers `reject`, so the same token is used here.  Outside a deviation region the
+		// request is still a VIOLATION because the specification is a tree of the fragment.
+		return "reject"
+	}
+	return d
 }
 
 func implC03(line string) string {
